@@ -16,6 +16,13 @@ Record sign_case := {
   sg_enc_pk : list Z;                  (* sign::encode::public_key *)
   sg_enc_sig : list Z;                 (* sign::encode::signature *)
   sg_vm : list Z;                      (* stack (bottom first) after RecoverSecp256k1 on words4(addr) ++ enc_sig; [-1] on error *)
+  sg_enc_pk_bytes : list Z;            (* sign::encode::public_key_as_bytes, 40 bytes *)
+  sg_enc_sig_bytes : list Z;           (* sign::encode::signature_as_bytes, 72 bytes *)
+  sg_api : list bool;                  (* the hash / message level API on the same digest and key, each expected true:
+                                          sign_hash(addr) = the contract signature; sign_message = sign_hash;
+                                          recover_hash = signer; recover_from_message = signer; verify_hash ok;
+                                          verify_message(signer) ok; verify_message(another key) fails;
+                                          recover_hash of a different digest is not the signer *)
 }.
 
 Definition sign_env (c : sign_case) : env :=
@@ -29,6 +36,8 @@ Definition sign_mismatch (c : sign_case) : bool :=
   negb (zlist_eqb (contract_addr sha256 (sg_preds c) (sg_salt c)) (sg_addr c)
         && zlist_eqb (public_key_words (sg_signer c)) (sg_enc_pk c)
         && zlist_eqb (signature_words (sg_sig c) (sg_id c)) (sg_enc_sig c)
+        && zlist_eqb (bytes_of_words (public_key_words (sg_signer c))) (sg_enc_pk_bytes c)
+        && zlist_eqb (bytes_of_words (signature_words (sg_sig c) (sg_id c))) (sg_enc_sig_bytes c)
         && match op_recover_secp256k1 (sign_env c) (rev (words4 (sg_addr c) ++ sg_enc_sig c)) with
            | Ok s => zlist_eqb (rev s) (sg_vm c)
            | _ => zlist_eqb (sg_vm c) [-1]
@@ -41,6 +50,9 @@ Definition sign_spec_fail (c : sign_case) : bool :=
         && forallb (fun r => negb (zlist_eqb r (sg_signer c))) (sg_tampered c) (* any tampering: not the signer's key any more *)
         && forallb (fun e => if (0 <=? fst e) && (fst e <=? 3) then negb (snd e =? 2) else snd e =? 0) (sg_bad_ids c)
         && (length (sg_enc_pk c) =? 5)%nat && (length (sg_enc_sig c) =? 9)%nat
+        && (length (sg_enc_pk_bytes c) =? 40)%nat && (length (sg_enc_sig_bytes c) =? 72)%nat
+        && zlist_eqb (sg_enc_pk_bytes c) (bytes_of_words (sg_enc_pk c)) && zlist_eqb (sg_enc_sig_bytes c) (bytes_of_words (sg_enc_sig c))
+        && forallb (fun b => b) (sg_api c)
         (* the VM produces exactly the sign crate's encoding of the recovered key *)
         && zlist_eqb (sg_vm c) (sg_enc_pk c)).
 
